@@ -279,16 +279,31 @@ def syncTracks (adps : List Adp) (ppk : Nat) : List Nat → List Adp
     if adps.any (fun a => a.period == ppk && a.track == t) then syncTracks adps ppk ts
     else syncTracks (adps ++ [{ pk := fresh (adps.map (·.pk)), period := ppk, track := t }]) ppk ts
 
+/-- the Period row a spec addresses: by primary key when the request gives one,
+else by `pid` among the Periods of the multi-period stream
+(multi_period_streams.py:86-89) -/
+def findPeriod (s : St) (mpsPk : Nat) (sp : PSpec) : Option Period :=
+  match sp.pk with
+  | some p => s.periods.find? (·.pk == p)
+  | none => s.periods.find? (fun q => q.pid == sp.pid && q.parent == mpsPk)
+
+/-- update the addressed Period row, or create one (multi_period_streams.py:90-92,
+106-122); returns the Period's primary key and the new table -/
+def upsertPeriod (s : St) (mpsPk : Nat) (sp : PSpec) : Option Period → Nat × List Period
+  | some q => (q.pk, s.periods.map (fun x =>
+      if x.pk == q.pk then { x with pid := sp.pid, stream := sp.stream, ordering := sp.ordering }
+      else x))
+  | none =>
+    (fresh (s.periods.map (·.pk)),
+     s.periods ++ [{ pk := fresh (s.periods.map (·.pk)), pid := sp.pid, parent := mpsPk,
+                     stream := sp.stream, ordering := sp.ordering }])
+
 /-- One Period of a request.  `none`: the request is refused (unknown stream, no
 usable timing reference).  Otherwise the state with the Period created/updated
 and the missing AdaptationSet rows created, and the primary keys of the
 AdaptationSet rows of that Period the request no longer names
 (`unused_tracks`, deleted by the caller: `session.delete` is flushed later). -/
 def processPeriod (s : St) (mpsPk : Nat) (sp : PSpec) : Option (St × List Nat) :=
-  let existing : Option Period :=
-    match sp.pk with
-    | some p => s.periods.find? (·.pk == p)
-    | none => s.periods.find? (fun q => q.pid == sp.pid && q.parent == mpsPk)
   match findStream s sp.stream with
   | none => none
   | some st =>
@@ -299,18 +314,10 @@ def processPeriod (s : St) (mpsPk : Nat) (sp : PSpec) : Option (St × List Nat) 
       | none => none
       | some tf =>
         if tf.rep.isNone then none else
-        let ppk : Nat := match existing with
-          | some q => q.pk
-          | none => fresh (s.periods.map (·.pk))
-        let periods' : List Period := match existing with
-          | some q => s.periods.map (fun x =>
-              if x.pk == q.pk then { x with pid := sp.pid, stream := sp.stream, ordering := sp.ordering }
-              else x)
-          | none => s.periods ++ [{ pk := ppk, pid := sp.pid, parent := mpsPk, stream := sp.stream,
-                                    ordering := sp.ordering }]
-        let adps1 := syncTracks s.adps ppk sp.tracks
-        let doomed := (adps1.filter (fun a => a.period == ppk && !sp.tracks.contains a.track)).map (·.pk)
-        some ({ s with periods := periods', adps := adps1 }, doomed)
+        let r := upsertPeriod s mpsPk sp (findPeriod s mpsPk sp)
+        let adps1 := syncTracks s.adps r.1 sp.tracks
+        let doomed := (adps1.filter (fun a => a.period == r.1 && !sp.tracks.contains a.track)).map (·.pk)
+        some ({ s with periods := r.2, adps := adps1 }, doomed)
 
 def dropAdps (s : St) (doomed : List Nat) : St :=
   { s with adps := s.adps.filter (fun a => !doomed.contains a.pk) }
